@@ -78,6 +78,10 @@ def nodes(n):
         elif t in ('call', 'array'):
             for a in n[2] if t == 'call' else n[1]:
                 yield from nodes(a)
+        elif t == 'mapc':
+            for kv in n[1]:
+                for e in kv:
+                    yield from nodes(e)
         elif t == 'dyn':
             yield from nodes(n[1])
             for a in n[2]:
@@ -114,6 +118,8 @@ def free_vars(n, bound=frozenset()):
         kids = [n[1]] + n[2]
     elif t == 'array':
         kids = n[1]
+    elif t == 'mapc':
+        kids = [e for kv in n[1] for e in kv]
     else:
         kids = n[1:]
     for c in kids:
